@@ -4,6 +4,7 @@ import (
 	"go/constant"
 	"go/token"
 	"go/types"
+	"strings"
 
 	"golang.org/x/tools/go/ssa"
 
@@ -204,4 +205,300 @@ func keptListRecordsRejection(f *ssa.Function, head *ssa.BasicBlock, list *ssa.P
 		x, y := core.Unwrap(c.X), core.Unwrap(c.Y)
 		return c.Op == token.EQL && ((lenOf(x, list) && lenOf(y, ranged)) || (lenOf(y, list) && lenOf(x, ranged)))
 	}, nil)
+}
+
+// ---------------------------------------------------------------- FilterCmdKey: the loop state in a private record (R10.2)
+
+// boolMask: x is the mask of kept keys — a []bool made locally, directly or read from a field of a private record
+// into which nothing but such a slice is ever put.
+func boolMask(x ssa.Value) bool {
+	isMask := func(v ssa.Value) bool {
+		ms, ok := v.(*ssa.MakeSlice)
+		return ok && strings.HasSuffix(ms.Type().String(), "[]bool")
+	}
+	if isMask(x) {
+		return true
+	}
+	ld, ok := x.(*ssa.UnOp)
+	if !ok || ld.Op != token.MUL {
+		return false
+	}
+	fa, ok := ld.X.(*ssa.FieldAddr)
+	if !ok {
+		return false
+	}
+	a, ok := fa.X.(*ssa.Alloc)
+	if !ok {
+		return false
+	}
+	vals, known := core.RecordFieldSources(a, fa.Field)
+	if !known || len(vals) == 0 {
+		return false
+	}
+	for _, v := range vals {
+		if !isMask(v) {
+			return false
+		}
+	}
+	return true
+}
+
+// recordFlagRecordsRejection: the "a key was rejected" flag is a boolean field k of a private record R of the
+// function g that holds the per-key loop (g is f, or a helper with one call site in f). The flag does its job when
+//
+//	(1) every completed iteration that rejected the key stores the constant true into R.k;
+//	(2) nothing but the constant true is ever stored into that field, in R or in a record R is copied from
+//	    (RecordFieldSources; a source that cannot be read makes the rule fail), and R as a whole is assigned only
+//	    before the loop (the assignment's block strictly dominates the loop head) or from itself — so once set the
+//	    field stays set until g returns;
+//	(3) the flag is read from R itself or, when the loop is in a helper, from a private record Q of f whose only
+//	    assignment is the result of that helper's one call, all of whose returns yield R, and the assignment
+//	    dominates the read; Q.k is likewise never written anything but true;
+//	(4) every return of f that passes the command on unchanged after the loop — (args, false) — lies under the
+//	    outcome "false" of a branch on such a read.
+func recordFlagRecordsRejection(f *ssa.Function, head *ssa.BasicBlock, nIter int, iter func(k int) (rej bool, instrs []ssa.Instruction)) bool {
+	g := head.Parent()
+	anchor := head
+	var site *ssa.Call
+	if g != f {
+		site = core.ExpandedInto(g)
+		if site == nil || site.Parent() != f {
+			return false
+		}
+		anchor = site.Block()
+	}
+	type fld struct {
+		rec *ssa.Alloc
+		k   int
+	}
+	isTrue := func(v ssa.Value) bool { b, isC := core.ConstBool(v); return isC && b }
+	// (1) the fields every rejecting iteration leaves at true
+	var cands map[fld]bool
+	nRej := 0
+	for i := 0; i < nIter; i++ {
+		rej, instrs := iter(i)
+		if !rej {
+			continue
+		}
+		nRej++
+		last := map[fld]bool{}
+		for _, in := range instrs {
+			st, ok := in.(*ssa.Store)
+			if !ok {
+				continue
+			}
+			if fa, isFa := st.Addr.(*ssa.FieldAddr); isFa {
+				if a, isA := fa.X.(*ssa.Alloc); isA && a.Parent() == g {
+					if bt, isB := st.Val.Type().Underlying().(*types.Basic); isB && bt.Kind() == types.Bool {
+						last[fld{a, fa.Field}] = isTrue(st.Val)
+					}
+				}
+			}
+		}
+		if cands == nil {
+			cands = map[fld]bool{}
+			for c, v := range last {
+				if v {
+					cands[c] = true
+				}
+			}
+		} else {
+			for c := range cands {
+				if !last[c] {
+					delete(cands, c)
+				}
+			}
+		}
+	}
+	if nRej == 0 {
+		return false
+	}
+	onlyTrue := func(a *ssa.Alloc, k int) bool {
+		vals, known := core.RecordFieldSources(a, k)
+		if !known {
+			return false
+		}
+		for _, v := range vals {
+			if !isTrue(v) {
+				return false
+			}
+		}
+		return true
+	}
+	for c := range cands {
+		R, k := c.rec, c.k
+		// (2)
+		if !onlyTrue(R, k) {
+			continue
+		}
+		ok := true
+		for _, rf := range *R.Referrers() {
+			st, isSt := rf.(*ssa.Store)
+			if !isSt || st.Addr != ssa.Value(R) {
+				continue
+			}
+			if ld, isLd := st.Val.(*ssa.UnOp); isLd && ld.Op == token.MUL && ld.X == ssa.Value(R) {
+				continue // R = R
+			}
+			if b := st.Block(); b == head || !b.Dominates(head) {
+				ok = false
+			}
+		}
+		if !ok {
+			continue
+		}
+		// (3) the records the flag may be read from
+		Q := R
+		var qStore *ssa.Store
+		if g != f {
+			Q = nil
+			idx := -1
+			for _, in := range core.OwnInstrs(f) {
+				st, isSt := in.(*ssa.Store)
+				if !isSt {
+					continue
+				}
+				a, isA := st.Addr.(*ssa.Alloc)
+				if !isA {
+					continue
+				}
+				switch x := st.Val.(type) {
+				case *ssa.Extract:
+					if x.Tuple == ssa.Value(site) {
+						Q, qStore, idx = a, st, x.Index
+					}
+				case *ssa.Call:
+					if x == site {
+						Q, qStore, idx = a, st, 0
+					}
+				}
+			}
+			if Q == nil || !onlyTrue(Q, k) {
+				continue
+			}
+			nStores := 0
+			for _, rf := range *Q.Referrers() {
+				if st, isSt := rf.(*ssa.Store); isSt && st.Addr == ssa.Value(Q) {
+					nStores++
+				}
+			}
+			if nStores != 1 {
+				continue
+			}
+			yieldsR := true
+			nRet := 0
+			for _, b := range g.Blocks {
+				if b == g.Recover || len(b.Instrs) == 0 {
+					continue
+				}
+				ret, isRet := b.Instrs[len(b.Instrs)-1].(*ssa.Return)
+				if !isRet {
+					continue
+				}
+				nRet++
+				ld, isLd := ret.Results[idx].(*ssa.UnOp)
+				if idx >= len(ret.Results) || !isLd || ld.Op != token.MUL || ld.X != ssa.Value(R) {
+					yieldsR = false
+				}
+			}
+			if !yieldsR || nRet == 0 {
+				continue
+			}
+		}
+		isFlagRead := func(v ssa.Value) bool {
+			ld, isLd := core.Unwrap(v).(*ssa.UnOp)
+			if !isLd || ld.Op != token.MUL {
+				return false
+			}
+			fa, isFa := ld.X.(*ssa.FieldAddr)
+			if !isFa || fa.X != ssa.Value(Q) || fa.Field != k {
+				return false
+			}
+			return qStore == nil || core.Dominates(qStore, ld)
+		}
+		// (4)
+		args := ssa.Value(f.Params[2])
+		n, guarded := 0, true
+		for _, ret := range core.ReturnsX(f) {
+			if len(ret.Results) != 2 {
+				continue
+			}
+			rej, isC := core.ConstBool(core.RetVal(ret, 1))
+			if !isC || rej || core.Unwrap(core.RetVal(ret, 0)) != args {
+				continue
+			}
+			var at ssa.Instruction = ret
+			for i := 0; i < 8 && at.Parent() != f; i++ {
+				c := core.ExpandedInto(at.Parent())
+				if c == nil {
+					break
+				}
+				at = c
+			}
+			if at.Parent() != f {
+				guarded = false
+				continue
+			}
+			if !anchor.Dominates(at.Block()) {
+				continue // before the loop: nothing has been judged yet
+			}
+			under := false
+			for _, fct := range core.FactsAt(ret.Block()) {
+				if !fct.Val && isFlagRead(fct.Cond) {
+					under = true
+				}
+			}
+			if !under {
+				guarded = false
+			}
+			n++
+		}
+		if guarded && n > 0 {
+			return true
+		}
+	}
+	return false
+}
+
+// ---------------------------------------------------------------- ParseArgs: the list built by append (R12.4)
+
+// grownOnePerIteration: v is a slice a loop builds with append — a phi of a loop head that enters the loop as
+// make(T, 0, …) (or nil) and that EVERY back edge hands on as append(v, exactly one element). A back edge that
+// carries the list unchanged (an iteration that skips its element) or appends to something else does not qualify:
+// the list then does not hold one entry per element visited, and "everything after the first" loses arguments.
+func grownOnePerIteration(v ssa.Value) bool {
+	ph, ok := v.(*ssa.Phi)
+	if !ok {
+		return false
+	}
+	head := ph.Block()
+	entry, back := 0, 0
+	for i, e := range ph.Edges {
+		if !head.Dominates(head.Preds[i]) {
+			switch x := e.(type) {
+			case *ssa.MakeSlice:
+				if !isConstInt(0)(x.Len) {
+					return false
+				}
+			case *ssa.Const:
+				if x.Value != nil {
+					return false
+				}
+			default:
+				return false
+			}
+			entry++
+			continue
+		}
+		in, isIn := e.(ssa.Instruction)
+		if !isIn {
+			return false
+		}
+		l, el, isApp := keptListAppend(in, head)
+		if !isApp || l != ph || len(el) != 1 {
+			return false
+		}
+		back++
+	}
+	return entry > 0 && back > 0
 }
